@@ -1371,8 +1371,10 @@ class DiameterMessage:
 
         avp = self.__dict__[avp_key]
 
-        #: Updates DiameterMessage attributes.
-        self._avps.remove(avp)
+        #: Updates DiameterMessage attributes. The DiameterAVP object is 
+        #: removed by identity: `list.remove` compares by value and would 
+        #: drop the first AVP with the same content instead.
+        del self._avps[self._lookup_avp_index(avp)]
         self.__dict__.pop(avp_key, None)
 
         #: It updates the DiameterMessage object length attribute with the 
